@@ -133,6 +133,7 @@ func (c Cache) Imports() []string {
 	for k := range unique {
 		imports = append(imports, fmt.Sprintf("%q", k))
 	}
+	sort.Strings(imports) // the map iteration order is random
 	return imports
 }
 
